@@ -1,7 +1,7 @@
 \* emission (quick): H = 4, all actions; one JSON line per distinct state
 CONSTANTS H = 4  SrcPts = {1, 2, 3}  DstPts = {1, 2, 3}  Profiles = {1, 2, 3, 4, 11, 12, 13, 14}  FuelChoices = {0, 1, 3, 5, 7}  SolveProfiles = {3}
-          Jitters = {"none"}  Ops = {"MakeUniform", "Solve", "MapBack", "Snap"}  SnapFlags = {"true", "false", "auto"}
-          SnapProfiles = {2}  MaxLevel = 5
+          Jitters = {"none"}  Ops = {"MakeUniform", "Solve", "MapBack", "Snap", "Move"}  SnapFlags = {"true", "false", "auto"}
+          SnapProfiles = {2}  MoveProfiles = {2}  Geoms = {"cold"}  MaxLevel = 5
 INVARIANT EmitState
 INIT Init
 NEXT Next
